@@ -564,6 +564,12 @@ func neoEpisode(t *testing.T, r *kit.Run, ep int, maxN int, steps int) {
 			rp(neosynth.Valid, m-1)
 			rp([]neosynth.SlotKind{neosynth.Foreign, neosynth.BadSig}[rng.Intn(2)], 1+rng.Intn(2))
 			rng.Shuffle(len(kinds), func(a, b int) { kinds[a], kinds[b] = kinds[b], kinds[a] })
+		case "below-plus-garbage":
+			rp(neosynth.Valid, m-1)
+			rp(neosynth.Garbage, 1+rng.Intn(n-m+2))
+			if rng.Intn(2) == 0 {
+				rng.Shuffle(len(kinds), func(a, b int) { kinds[a], kinds[b] = kinds[b], kinds[a] })
+			}
 		case "not-higher":
 			h.Index = before.Height - uint32(rng.Intn(3))
 			rp(neosynth.Valid, m)
@@ -601,7 +607,7 @@ func neoEpisode(t *testing.T, r *kit.Run, ep int, maxN int, steps int) {
 		}
 		return out
 	}
-	shapes := []string{"honest", "honest", "below", "one-key-repeated", "below-plus-foreign", "not-higher", "no-change", "other-committee", "weaker-script", "random"}
+	shapes := []string{"honest", "honest", "below", "one-key-repeated", "below-plus-foreign", "below-plus-garbage", "not-higher", "no-change", "other-committee", "weaker-script", "random"}
 	for step := 0; step < steps; step++ {
 		before := readNeo(e)
 		cur = sets[before.Next]
